@@ -6,6 +6,7 @@ var Registry = map[string]func(tier string) int{
 	"C03": C03,
 	"C04": C04,
 	"C08": C08,
+	"C09": C09,
 	"C10": C10,
 	"C13": C13,
 	"C15": C15,
